@@ -164,12 +164,15 @@ func checkWrkchainFees(ctx sdk.Context, tx sdk.FeeTx, wck WrkchainKeeper) error 
 	}
 
 	totalFees := sdk.Coins{expectedFees}
-	if tx.GetFee().IsAllLT(totalFees) {
+	// compare the amount offered in the fee denomination only: IsAllLT/IsAllGT are both false
+	// as soon as the fee carries any other denomination, which let any amount through
+	sentFeeAmount := tx.GetFee().AmountOfNoDenomValidation(expectedFeeDenom)
+	if sentFeeAmount.LT(expectedFees.Amount) {
 		errMsg := fmt.Sprintf("insufficient fee to pay for WrkChain tx. numMsgs in tx: %v, expected fees: %v, sent fees: %v", numMsgs, totalFees.String(), tx.GetFee())
 		return sdkerrors.Wrap(exported.ErrInsufficientWrkChainFee, errMsg)
 	}
 
-	if tx.GetFee().IsAllGT(totalFees) {
+	if sentFeeAmount.GT(expectedFees.Amount) {
 		errMsg := fmt.Sprintf("too much fee sent to pay for WrkChain tx. numMsgs in tx: %v, expected fees: %v, sent fees: %v", numMsgs, totalFees.String(), tx.GetFee())
 		return sdkerrors.Wrap(exported.ErrTooMuchWrkChainFee, errMsg)
 	}
